@@ -2,61 +2,92 @@
 
 HOOKS = {
     "guard": "derive_more_verif",
-    "enable": "none: static analysis needs no instrumentation of /repo; no hook commits exist (the only /repo commits are `fix:` repairs)",
+    "enable": "none: static analysis needs no instrumentation of /repo; no hook commits exist (the only /repo commits are `fix:` repairs, listed in known_findings.json)",
     "baseline_off_cmd": "cd /repo && cargo test --workspace --no-fail-fast --offline",
     "source_commits": [],
     "add_only": True,
 }
 
+ALL = ["C%02d" % i for i in range(1, 21)]
+
 ENGINES = [
     {
         "name": "dmast",
         "path": "tools/dmast",
-        "serves_properties": ["C01", "C15"],
-        "kind_free_text": "syn 2 parser dumping the complete syntax tree of impl/src/** and src/** as JSON; template IR (every quote!/parse_quote! site), "
-        "lexical binding resolution and the rules live in lib/dm (python)",
+        "serves_properties": ALL,
+        "kind_free_text": "syn 2 parser dumping the complete syntax tree of impl/src/**, src/**, and of reference sources (syn's ty.rs/path.rs, core's fmt/builders.rs) as JSON; "
+        "template IR (every quote!/parse_quote!/format_ident! site), lexical binding resolution, canonical renderer and all rules live in lib/dm (python)",
     },
     {
         "name": "dmmir",
         "path": "tools/dmmir",
-        "serves_properties": ["C01"],
-        "kind_free_text": "rustc_private driver run as RUSTC_WORKSPACE_WRAPPER under cargo +nightly check --features full: typed locals (var_debug_info), "
-        "resolved calls, Assert terminators, statics, hashed-collection instantiations of derive_more-impl",
+        "serves_properties": ["C01", "C02", "C05", "C06", "C09", "C11", "C12", "C13", "C14", "C18", "C19"],
+        "kind_free_text": "rustc_private driver run as RUSTC_WORKSPACE_WRAPPER under cargo +nightly check --features full (fresh target dir): typed locals (var_debug_info) joined to the syntax tree by binding position, "
+        "resolved calls with macro-expansion chains, Assert terminators, pointer casts, statics, hashed-collection instantiations, call graph",
+    },
+    {
+        "name": "peg",
+        "path": "lib/dm/peg.py",
+        "serves_properties": ["C03", "C04", "C18"],
+        "kind_free_text": "grammar-model extraction: abstract interpretation of the combinator source of impl/src/fmt/parsing.rs into a PEG, PEG interpreter, reference reading of std::fmt's documented grammar",
+    },
+    {
+        "name": "cfg",
+        "path": "lib/dm/rules/cfg.py",
+        "serves_properties": ["C20", "C15"],
+        "kind_free_text": "cfg predicate algebra (exhaustive implication), module-tree gates, facade export gates, constant evaluation of generator string tables; cargo check per feature configuration",
     },
 ]
 
-NOTES = "Static analysis only: every check parses / type-checks /repo's working tree on each run and reports constructs (file, function, template, call site). Witness crate under witnesses/ demonstrates findings against the real macro; it decides nothing."
+NOTES = (
+    "Static analysis only: every check parses / type-checks /repo's working tree on each run and reports constructs (file, function, template, call site, MIR site). "
+    "Witnesses under witnesses/ demonstrate findings against the real macro; they decide nothing. seeded/ holds 40 independently written regressions with bin/seedsweep to replay them."
+)
 
 NOT_APPLICABLE = {}
 
+T_TPL = "static analysis: lint over the token trees of the code-generating templates (quote! sites) with rustc-typed interpolations and def-use provenance"
+T_DEC = "static analysis: structural rules over the decision code (match-arm tables, condition coverage, sibling agreement, must-precede / must-pass-through) on the syn AST"
+
 CLAIMS = {
-    "C01": {
-        "text": "Structural necessary conditions of 'expands to code that compiles warning-free', decided for all inputs on the 27 generated impl headers and all templates: "
-        "generic arguments are applied to the deriving type's identifier and nothing else (interpolations typed by rustc, identifier provenance by def-use), "
-        "headers carry impl generics / type generics / where-clause, impls naming user variants lie under allow(deprecated), no Self::<Assoc> in enum-capable expanders.",
-        "note": "Does not prove that every well-typed input type-checks after expansion (trait solving over arbitrary field types). Lint behaviour inside expansions as observed on the installed toolchains.",
-        "technique": "static analysis: template (quote!) token-tree lint with rustc-typed interpolations (MIR var_debug_info join) and def-use provenance",
-    },
-    "C19": {
-        "text": "Decided on rustc's own MIR of derive_more-impl with every feature on: every HashMap/HashSet instantiation uses the fixed-state hasher, no resolved call reaches an "
-        "ambient-state API (random seeds, clocks, env, fs, threads, locks/atomics, source positions), no pointer->integer cast, no static/thread_local/lazy state survives an expansion. "
-        "Holds for every derive input because it is a property of the generator's code, not of a sample of expansions.",
-        "note": "Purity of syn/quote/proc-macro2/convert_case/unicode-xid and of DefaultHasher::default() is assumed, not analysed. Calls through generics are resolved where rustc can (Instance::try_resolve); unresolved trait calls are matched by their trait path.",
-        "technique": "static analysis: effect/ambient-authority analysis over type-checked MIR (rustc_private driver), hashed-collection instantiation audit",
-        "engine": "dmmir",
-    },
-    "C20": {
-        "text": "Proof-style cfg algebra: for every derive_more:: path a template can emit (interpolated trait names resolved by constant evaluation of the generator's string tables), the feature gate of the emitting code "
-        "implies the gate of the facade export, over all feature assignments (exhaustive truth tables); manifests wired consistently (full = all derives, forwarding, optional deps). "
-        "Plus rustc's type-check of both crates for each single feature x {std,no-std} (quick) and all pairs + each derive's test program (--tests) in thorough tier.",
-        "note": "Run-time 'test program passes' is not decided (only type-checked). One listed, guard-checked exception: add_like's enum-only templates under `mul` alone (mul(forward) is struct-only).",
-        "technique": "static analysis: cfg-predicate implication (exhaustive evaluation) between emitting code and facade exports + compiler type-check per feature configuration",
-    },
-    "C15": {
-        "text": "Static name-resolution analysis of all quote!/parse_quote! templates: each template is the universal expansion for every input that reaches it, so a verdict on the 247 templates "
-        "covers all derive inputs, attribute modes and caller scopes. Decides: no path root, macro name or trait-method call in generated code resolves through the caller's scope; every derive_more:: path has a backing export.",
-        "note": "Trusts syn's parse of the sources and Rust's name-resolution rules as encoded in the rule (path continuation, field/method position, declarations). Tokens spliced from the user's item are the user's own. 'Identical behaviour' is implied, not executed.",
-        "technique": "static analysis: custom lint over the token trees of all code-generating templates (syn AST), who-may-be-named rule",
-        "engine": "dmast",
-    },
+    "C01": {"text": "Necessary conditions of 'compiles warning-free for every supported input', for all inputs: impl headers and every TypeGenerics splice apply the generics to the deriving type's identifier only (types from rustc, provenance by def-use), impls naming user variants are under allow(deprecated), no Self::<Assoc> in enum-capable expanders, user identifiers un-rawed, user expressions parenthesised.",
+            "note": "Does not prove that every well-typed input type-checks after expansion. Lint behaviour inside expansions as observed on the installed toolchains.", "technique": T_TPL},
+    "C02": {"text": "Decides the three structural facts the byte-for-byte claim reduces to: verbatim, ordered hand-over of the attribute to write!/format_args!, binder/member alignment, Pointer re-binding and the rename_all table; the produced bytes follow from format_args! semantics and are not executed.",
+            "note": "Trusts format_args!. Values at run time not decided.", "technique": T_TPL + "; " + T_DEC},
+    "C03": {"text": "Grammar-model check: a PEG extracted from the parser's source on every run equals std::fmt's documented grammar on all table rules and on a bounded exhaustive enumeration of literals (46k quick / ~10^6 thorough), counter discipline incl. `.*`; positional index must denote an argument for transparency.",
+            "note": "Strength bounded by extraction fidelity (guarded by the combinator-shape rule, fail-closed) and by the enumeration bound; reference grammar read from the toolchain docs.", "technique": "static analysis: grammar extraction from source (abstract interpretation of parser combinators) + bounded equivalence of two grammar models"},
+    "C04": {"text": "Bounds are sufficient/not excessive as far as visible in the generator: each emitted bound is guarded on the same type, the generic-detection traversal covers every syn variant and type-bearing field (compared with the syn sources), lookups agree with their sibling, body and bounds share decisions, literal parsing equals std's.",
+            "note": "Completeness of bounded_types as an algorithm is not proved.", "technique": T_DEC + "; traversal exhaustiveness against the dependency's AST definition"},
+    "C05": {"text": "Pass-through decision is total and exact: all FormatSpec fields veto transparency, one placeholder only, index 0 only, named outer binding total, every attribute-body site asks transparent_call_on_fields first and falls back unconditionally, delegation shape.",
+            "note": "Output text under each outer spec not decided. Two scanner findings (C16) are known and repeated here.", "technique": T_DEC},
+    "C06": {"text": "Builder-shape rules for generate_body, RAW-ID over every rustc-resolved Ident->text conversion, and method-by-method effect-skeleton equality between src/fmt.rs::DebugTuple and the toolchain's core::fmt::DebugTuple.",
+            "note": "One known finding (pretty branch drops formatter options; not fixable on MSRV). Output equality for all values not decided beyond skeleton equality.", "technique": "static analysis: sibling cross-check of two implementations (effect skeletons) + template shape rules + MIR-located conversions"},
+    "C07": {"text": "Compile-time clauses of the shared-attribute logic: rejection precedes generation and covers modifiers and non-Display, Debug rejects enum-level formats, name lookups agree, body/bounds share the shared_attr_info decisions, wrap template, rename before split.",
+            "note": "The full three-way run-time decision and printed texts are not decided.", "technique": T_DEC},
+    "C08": {"text": "Field order and impl set: (i, field) pairing, exactly one conversion per field, From decision table with a complete first pass, Into triples/kinds, Constructor single field list, attribute-merge symmetry over all kinds x fields.",
+            "note": "Run-time identity of conversions not decided.", "technique": T_DEC + "; " + T_TPL},
+    "C09": {"text": "Index-space typing (all fields vs enabled fields) of every subscript and matcher argument with spaces derived from the source, definitions of the enabled views, and the documented source-selection table.",
+            "note": "Address identity at run time follows from the selected member expression; not executed.", "technique": "static analysis: typed-index (index-space) dataflow over the syn AST joined with rustc types + decision-table rules"},
+    "C10": {"text": "Operand order and field-wise action for all inputs: template role rules for struct/enum/scalar/unary forms, error arms, one flag for Result wrapping, method names constant-evaluated against core's trait declarations, Sum/Product fold shape.",
+            "note": "Operator results for values not decided.", "technique": T_TPL + "; constant evaluation of name derivations"},
+    "C11": {"text": "Accessors built per variant from one source, success arm returns its own binders, failure re-match over all variants carrying the original value, emission gating, TryInto grouping/patterns, view definitions, un-raw method names.",
+            "note": "snake_case delegated to convert_case.", "technique": T_TPL + "; " + T_DEC},
+    "C12": {"text": "Discriminant counter discipline, parenthesised explicit expressions (TPL-PREC over all expression splices), typed injectively-named constants, match only through them, repr table and merge, generic header.",
+            "note": "Integer-domain sweep not done (language semantics of implicit discriminants assumed).", "technique": T_DEC + "; operator-adjacency rule for spliced expressions"},
+    "C13": {"text": "Same case mapping on both sides, guard structure for colliding groups, fall-through error, field-less only, newtype delegation and error type, un-raw names, generic header.",
+            "note": "Verdict for particular strings not decided.", "technique": T_DEC},
+    "C14": {"text": "Single enabled field selection with original positional names, direct/forwarded shapes with projected associated types, RefType tables, AsRef kind decision and autoref-specialisation levels between src/as.rs and the call site.",
+            "note": "Addresses / iteration contents not decided.", "technique": T_TPL + "; sibling/level consistency between facade impls and generated call"},
+    "C15": {"text": "Static name-resolution analysis of all 247 templates: no path root, macro name or trait-method call resolves through the caller's scope; every derive_more:: path (incl. constant-evaluated interpolated trait names) is exported under the features that compile the emitter.",
+            "note": "Tokens from the user's item are the user's own.", "technique": "static analysis: who-may-be-named lint over template token trees + cfg implication for exports"},
+    "C16": {"text": "Scanner alternatives compared row by row with Rust's comma-in-expression contexts, catch-all last, ident-only rule, alias test vs `==`/spacing, loop progress and failure at end of input, verbatim re-emission.",
+            "note": "Two known findings (cast-type generics, binary `|`). Agreement on all expressions is undecidable; the table is the claim.", "technique": "static analysis: table comparison between a hand-written scanner's alternatives and the language grammar's rows"},
+    "C17": {"text": "Untyped parser: duplicate check precedes every return, rejecting arms, allow-lists, slots written once; typed attributes: merge overrides enumerated (reject / concatenate / symmetric), synonyms, legacy detection on every path, positional-conflict diagnostics present and returned.",
+            "note": "Token-equality of expansions for synonymous spellings not proved.", "technique": T_DEC + " (error-discipline / must-precede rules)"},
+    "C18": {"text": "PANIC-LEDGER: every panic-capable MIR site of the crate is diagnostic / input-guaranteed / guarded (guard re-recognised each run) / audited; closed sets re-derived; recursive SCCs need a termination argument; parser and scanner loops progress; leaf slicing shapes; traversal wildcards unreachable; index spaces.",
+            "note": "A new unproved site is reported even if safe (sound-analysis style residual false-alarm risk, stated). Dependencies' panics out of scope.", "technique": "static analysis: panic-site enumeration on type-checked MIR + guard recognition (dominating conditions) + call-graph SCC termination audit"},
+    "C19": {"text": "Decided on rustc's MIR with every feature on: every HashMap/HashSet instantiation uses the fixed-state hasher, no resolved call reaches an ambient-state API, no pointer->integer cast, no static/thread_local/lazy state survives an expansion.",
+            "note": "Purity of dependencies and of DefaultHasher::default() assumed.", "technique": "static analysis: effect/ambient-authority analysis over type-checked MIR (rustc_private driver), hashed-collection instantiation audit", "engine": "dmmir"},
+    "C20": {"text": "cfg algebra: gate of emitting/using code implies gate of the definition/export over all feature assignments (exhaustive truth tables), manifests wired consistently; rustc type-check of both crates for each single feature x {std,no-std} (quick) and all pairs + --tests (thorough).",
+            "note": "Run-time 'test program passes' not decided. One guard-checked exception (add_like enum templates under `mul` alone).", "technique": "static analysis: cfg-predicate implication (exhaustive evaluation) + compiler type-check per feature configuration", "engine": "cfg"},
 }
